@@ -95,6 +95,10 @@ def build_repo_lib(extra_flags=(), tag="std"):
     final = os.path.join(CACHE, "lib-" + key)
     lib = os.path.join(final, "libgivaro_verif.a")
     if os.path.exists(lib):
+        try:
+            os.utime(final, None)
+        except OSError:
+            pass
         return lib, ""
     d = mkdir(os.path.join(CACHE, "tmp-lib-%s-%d" % (key, os.getpid())))
     cs = []
@@ -140,10 +144,17 @@ def build_repo_lib(extra_flags=(), tag="std"):
     return lib, ""
 
 
-def prune_cache(prefix, keep=4):
+def prune_cache(prefix, keep=4, min_age=6 * 3600):
+    """drop old cache entries beyond `keep`, but never one touched in the last hours: other checks (possibly run
+    against scratch copies of the repository) may be linking against it right now"""
     ds = sorted(glob.glob(os.path.join(CACHE, prefix + "*")), key=os.path.getmtime, reverse=True)
+    now = time.time()
     for d in ds[keep:]:
-        shutil.rmtree(d, ignore_errors=True)
+        try:
+            if now - os.path.getmtime(d) > min_age:
+                shutil.rmtree(d, ignore_errors=True)
+        except OSError:
+            pass
 
 
 def build_harness(src, extra_flags=(), link_lib=True, deps=(), timeout=900, name=None):
@@ -319,7 +330,10 @@ class Rng:
     M = (1 << 64) - 1
 
     def __init__(self, seed):
+        # the seed is mixed through one output step: states of consecutive seeds must not lie on the same
+        # additive orbit (seed*G + c would make Rng(s+1) the stream of Rng(s) shifted by one draw)
         self.s = (seed * 0x9E3779B97F4A7C15 + 0x1234567) & self.M
+        self.s = (self.next() ^ (seed * 0xD1342543DE82EF95)) & self.M
 
     def next(self):
         self.s = (self.s + 0x9E3779B97F4A7C15) & self.M
